@@ -11,8 +11,14 @@ D11 the generated rename:/delete:/template: processors act whenever the consumed
 D12 nothing on the resolution / gate / observer / generated-processor path reads process-lifetime state (module-level
 or class-level cells written at run time), except a table looked up by the identity of the objects its entries
 were computed from.
-The D1 first-match chain is decided from the truth table of the guards (sa/props/_chains.py), not from
-the textual order of the `if` statements.
+The D1 first-match chain is decided from the truth table of the guards (sa/props/_chains.py) of the resolver's
+normal form (`match` lowered, split-off helpers absorbed), not from the textual order of the `if` statements.
+Anchors are found by role, not by name: the functions that resolve a node's parameters (fetcher / mapping builder,
+method or module-level function, any name) are whatever the node bodies call in that position (`_Resolution`,
+following repo.resolve_call); the functions that keep the node configuration are those that store
+`<node>.processor_config`; the orchestrator's node list is the sequence whose elements the submitted callable runs,
+and the loop is accepted in any spelling that visits every item once in order (`_traversal`: enumerate / zip with
+lists built side by side / index loop / iter).
 Rules that look inside a function body analyse its normal form (sa/normal.py: new private helpers inlined)
 and speak about values, not spellings: a local is followed through the definitions that reach the point of
 use (`_val`/`_vals`/`_is_param`/`_rooted_in_param`), a named condition counts as the condition it names
@@ -275,82 +281,274 @@ def _only_through(g: CFG, atom, targets: List[int]) -> Tuple[bool, List[str], in
 
 
 # ---------------------------------------------------------------------- D1 helpers
-def _fetch_call_context(c: ast.AST, name_var: str) -> Optional[ast.AST]:
-    """The context argument of `self._fetch_parameter_value(<name_var>, ctx)`, else None."""
-    if not (isinstance(c, ast.Call) and dotted_name(c.func) == "self._fetch_parameter_value"):
+# Who resolves a node's run-time parameters is found by ROLE, following the calls out of the node bodies:
+#   fetch   = a call that denotes resolve_runtime_value(name=N, processor_cls=type(X.processor),
+#             processor_config=X.processor_config, context=C) - written in place, or a call of a function of
+#             nodes.py (method or module-level, any name) every return of which is such a fetch of its own parameters;
+#   builder = a function of nodes.py (method or module-level, any name) that returns {n: fetch(X, n, C) for every
+#             processing parameter name n of X.processor}.
+# A function is examined as fetcher / builder because a node body uses it as one, not because of its name.
+def _callee_binding(mod, c: ast.Call, F: ast.AST) -> Optional[Dict[str, ast.AST]]:
+    """Arguments of call *c* by the parameter names of its target *F*; the receiver of a bound-method call
+    (`x.m(..)` with *F* defined in a class, `x` not a class) is bound to F's first parameter."""
+    a = F.args
+    pos = [x.arg for x in list(a.posonlyargs) + list(a.args)]
+    out: Dict[str, ast.AST] = {}
+    deco = [dotted_name(d) for d in getattr(F, "decorator_list", [])]
+    if isinstance(parent(F), ast.ClassDef) and "staticmethod" not in deco and isinstance(c.func, ast.Attribute):
+        recv = c.func.value
+        if not (isinstance(recv, ast.Name) and isinstance(mod.defs.get(recv.id), ast.ClassDef)):
+            if not pos:
+                return None
+            out[pos[0]] = recv
+            pos = pos[1:]
+    rest = _call_args(c, tuple(pos) + tuple(x.arg for x in a.kwonlyargs))
+    if rest is None:
         return None
-    a = _call_args(c, ("name", "context"))
-    if a is None or set(a) != {"name", "context"} or not (isinstance(a["name"], ast.Name) and a["name"].id == name_var):
-        return None
-    return a["context"]
+    out.update(rest)
+    return out
 
 
-def _all_parameter_names(g: CFG, e: ast.AST, use: int) -> bool:
-    """*e* iterates over every processing parameter name of the wrapped processor, in declaration order."""
-    v, u = _val(g, e, use)
-    if isinstance(v, ast.Call) and isinstance(v.func, ast.Name) and v.func.id in ("list", "tuple") and len(v.args) == 1 and not v.keywords:
-        v, u = _val(g, v.args[0], u)
-    return isinstance(v, ast.Call) and ast.unparse(v) == "self.processor.get_processing_parameter_names()"
+def _entry_param(g: CFG, e: Optional[ast.AST], use: int) -> Optional[str]:
+    """The parameter of g.func whose entry value *e* necessarily denotes at *use*, else None."""
+    if e is None:
+        return None
+    for p in _fn_params(g.func):
+        if _is_param(g, e, use, p):
+            return p
+    return None
+
+
+class _Resolution:
+    def __init__(self, repo: Repo, R: Report, rule: str):
+        self.repo, self.R, self.rule = repo, R, rule
+        self.nmod = repo.module(NODES)
+        self.rrv = repo.func(PARAMRES, "resolve_runtime_value")
+        self.fetchers: Dict[int, Tuple[ast.AST, Optional[Tuple[str, str, str]]]] = {}  # id(def) -> (def, (node, name, context) parameters)
+        self.builders: Dict[int, Tuple[ast.AST, Optional[Tuple[str, str]]]] = {}  # id(def) -> (def, (node, context) parameters)
+        self._busy: Set[int] = set()
+        self.direct = 0
+
+    def targets(self, c: ast.Call) -> List[Tuple[object, ast.AST]]:
+        try:
+            return self.repo.resolve_call(self.nmod, c)
+        except Exception:
+            return []
+
+    # -- fetch -------------------------------------------------------------------------------------
+    def fetch(self, g: CFG, c: Optional[ast.AST], use: int) -> Tuple[Optional[Tuple[str, ast.AST, ast.AST, int]], str]:
+        """(X, N, C, node at which N and C are read) when *c* denotes the single-source resolution of parameter N of
+        node X against context C; else (None, why)."""
+        c, use = _val(g, c, use) if c is not None else (None, use)
+        if not isinstance(c, ast.Call):
+            return None, f"`{ast.unparse(c)[:50] if c is not None else '?'}` is not a call of the resolver"
+        tg = self.targets(c)
+        if len(tg) == 1 and tg[0][1] is self.rrv:
+            a = _callee_binding(tg[0][0], c, self.rrv)
+            if not a or set(a) != {"name", "processor_cls", "processor_config", "context"}:
+                return None, f"`{norm(c)[:60]}` does not pass name / processor_cls / processor_config / context"
+            cfgv = dotted_name(_val(g, a["processor_config"], use)[0]) or ""
+            x, _, attr = cfgv.rpartition(".")
+            if attr != "processor_config" or not x or "." in x or reaching_defs(g, x, use) or x not in _fn_params(g.func):
+                return None, f"the configuration handed to the resolver is `{cfgv or ast.unparse(a['processor_config'])[:40]}`, not the node's own processor_config"
+            cls_txt = ast.unparse(_val(g, a["processor_cls"], use)[0])
+            if cls_txt not in (f"{x}.processor.__class__", f"type({x}.processor)"):
+                return None, f"the class handed to the resolver is `{cls_txt[:50]}`, not the class of the node's processor"
+            self.direct += 1
+            return (x, a["name"], a["context"], use), ""
+        if tg and all(m is self.nmod and isinstance(F, FuncNode) for m, F in tg):
+            got = None
+            for _m, F in tg:
+                shape = self.fetcher_shape(F)
+                b = _callee_binding(self.nmod, c, F)
+                if shape is None or b is None or not all(p in b for p in shape):
+                    return None, f"`{norm(c)[:50]}` goes to {qualname_of(F)}, which is not the single-source resolver applied to the node's own configuration"
+                x = b[shape[0]]
+                if not (isinstance(x, ast.Name) and x.id in _fn_params(g.func) and not reaching_defs(g, x.id, use)):
+                    return None, f"`{norm(c)[:50]}` resolves against the configuration of `{ast.unparse(x)[:30]}`, not of this node"
+                got = (x.id, b[shape[1]], b[shape[2]], use)
+            return got, ""
+        return None, f"`{norm(c)[:60]}` is not the single-source resolver"
+
+    def fetcher_shape(self, F: ast.AST) -> Optional[Tuple[str, str, str]]:
+        """(node, name, context) parameters of *F* when every path of F returns the single-source resolution of
+        parameter <name> of node <node> against <context>; reported once per function."""
+        if id(F) in self.fetchers:
+            return self.fetchers[id(F)][1]
+        if id(F) in self._busy:
+            return None
+        self._busy.add(id(F))
+        qn = qualname_of(F)
+        f = _nf(self.repo, NODES, qn)
+        g = CFG(f, may_raise=_no_raise)
+        rets = [n for n in g.nodes if n.kind == "stmt" and isinstance(n.ast, ast.Return)]
+        shape: Optional[Tuple[str, str, str]] = None
+        ok = bool(rets) and not g.must_pass([g.entry], [g.ret_exit], lambda n: n.kind == "stmt" and isinstance(n.ast, ast.Return))
+        why = "a path returns nothing"
+        for rn in rets:
+            if not ok:
+                break
+            got, why = self.fetch(g, rn.ast.value, rn.id) if rn.ast.value is not None else (None, "a path returns nothing")
+            if got is None:
+                ok = False
+                break
+            x, n_, c_, u = got
+            this = (x, _entry_param(g, n_, u), _entry_param(g, c_, u))
+            if this[1] is None or this[2] is None or len(set(this)) != 3 or (shape is not None and shape != this):
+                ok, why = False, f"it resolves `{ast.unparse(n_)[:30]}` against `{ast.unparse(c_)[:30]}`, which are not the name / context it was called with"
+                break
+            shape = this  # type: ignore[assignment]
+        self._busy.discard(id(F))
+        if not ok:
+            shape = None
+        self.fetchers[id(F)] = (F, shape)
+        self.R.check(ok, self.rule, NODES, qn, "return resolve_runtime_value(name, <node>.processor.__class__, <node>.processor_config, context)", f"a node resolves parameters by something other than the single-source resolver on its own configuration and the run context: {why}", F.lineno)
+        return shape
+
+    # -- the mapping handed to the processor -------------------------------------------------------------
+    def _all_parameter_names(self, g: CFG, e: ast.AST, use: int, x: str) -> bool:
+        """*e* iterates over every processing parameter name of the processor wrapped by node *x*, in declaration order."""
+        v, u = _val(g, e, use)
+        if isinstance(v, ast.Call) and isinstance(v.func, ast.Name) and v.func.id in ("list", "tuple") and len(v.args) == 1 and not v.keywords:
+            v, u = _val(g, v.args[0], u)
+        return isinstance(v, ast.Call) and ast.unparse(v) == f"{x}.processor.get_processing_parameter_names()"
+
+    def _fetch_of(self, g: CFG, val: ast.AST, use: int, name_var: str) -> Tuple[Optional[Tuple[str, ast.AST, int]], str]:
+        """(X, C, node) when *val* is fetch(X, <name_var>, C)."""
+        got, why = self.fetch(g, val, use)
+        if got is None:
+            return None, f"the value stored under a parameter name is `{ast.unparse(val)[:50]}`, not the resolver's value for that name ({why})"
+        x, n_, c_, u = got
+        if not (isinstance(n_, ast.Name) and n_.id == name_var):
+            return None, f"the value stored under a parameter name is resolved for `{ast.unparse(n_)[:30]}`, not for that name"
+        return (x, c_, u), ""
+
+    def kwargs(self, fn: ast.AST, g: CFG, e: ast.AST, use: int) -> Tuple[bool, str, Optional[str], List[Tuple[ast.AST, int]]]:
+        """Is the mapping *e* (as seen at node *use*) exactly {n: fetch(X, n, C) for every processing parameter name n
+        of X.processor}?  -> (ok, why not, X, [(C, node at which C is read)]).
+        Accepted constructions: the result of a builder called on X, the dict comprehension, or an empty dict
+        filled by one unconditional loop over the names that every path from the dict's creation to *use* goes
+        through - and nothing else mutates the mapping."""
+        vs = _vals(g, e, use)
+        if not vs:
+            return False, "it is built in a way the analysis cannot follow", None, []
+        holders = {e.id} if isinstance(e, ast.Name) else set()
+        for v, u in vs:
+            holders |= _target_names(g, u)
+        muts = mutation_sites(fn, holders) if holders else []
+        xs: Set[str] = set()
+        ctxs: List[Tuple[ast.AST, int]] = []
+        for v, u in vs:
+            tg = self.targets(v) if isinstance(v, ast.Call) else []
+            if tg and all(m is self.nmod and isinstance(G, FuncNode) for m, G in tg):
+                for _m, G in tg:
+                    shape = self.builder_shape(G)
+                    b = _callee_binding(self.nmod, v, G)
+                    if shape is None or b is None or not all(p in b for p in shape):
+                        return False, f"`{norm(v)[:50]}` goes to {qualname_of(G)}, which does not return the resolver's value for every processing parameter", None, []
+                    x_ = b[shape[0]]
+                    if not (isinstance(x_, ast.Name) and x_.id in _fn_params(g.func) and not reaching_defs(g, x_.id, u)):
+                        return False, f"`{norm(v)[:50]}` resolves the parameters of `{ast.unparse(x_)[:30]}`, not of this node", None, []
+                    xs.add(x_.id)
+                    ctxs.append((b[shape[1]], u))
+                allowed: List[ast.AST] = []
+            elif isinstance(v, ast.DictComp):
+                gen = v.generators[0]
+                if not (len(v.generators) == 1 and not gen.ifs and not gen.is_async and isinstance(gen.target, ast.Name) and isinstance(v.key, ast.Name) and v.key.id == gen.target.id):
+                    return False, "the comprehension filters / re-keys the parameter names", None, []
+                got, why = self._fetch_of(g, v.value, u, gen.target.id)
+                if got is None:
+                    return False, why, None, []
+                if not self._all_parameter_names(g, gen.iter, u, got[0]):
+                    return False, f"it is built from `{ast.unparse(gen.iter)[:50]}`, not from every processing parameter name", None, []
+                xs.add(got[0])
+                ctxs.append((got[1], got[2]))
+                allowed = []
+            elif (isinstance(v, ast.Dict) and not v.keys) or (isinstance(v, ast.Call) and dotted_name(v.func) == "dict" and not v.args and not v.keywords):
+                accs = _target_names(g, u)
+                stores = [s for s, r in muts if r in accs]
+                if len(accs) != 1 or len(stores) != 1:
+                    return False, "the empty mapping is not filled by exactly one store per parameter name", None, []
+                st = stores[0]
+                loop = parent(st)
+                acc = next(iter(accs))
+                okst = isinstance(st, ast.Assign) and len(st.targets) == 1 and isinstance(st.targets[0], ast.Subscript) and isinstance(st.targets[0].value, ast.Name) and st.targets[0].value.id == acc and isinstance(st.targets[0].slice, ast.Name)
+                if not (okst and isinstance(loop, ast.For) and st in loop.body and not loop.orelse and isinstance(loop.target, ast.Name) and loop.target.id == st.targets[0].slice.id):
+                    return False, "the store of a resolved value is not the body of a plain loop over the parameter names", None, []
+                if any(isinstance(x, (ast.Continue, ast.Break, ast.Return, ast.Raise, ast.If, ast.Try)) for x in walk_no_nested(loop)) :
+                    return False, "the loop over the parameter names can skip a name (if / continue / break / try inside it)", None, []
+                if sum(1 for x in walk_no_nested(loop) if isinstance(x, ast.Name) and x.id == loop.target.id and isinstance(x.ctx, ast.Store)) != 1:
+                    return False, "the loop variable is rebound inside the loop over the parameter names", None, []
+                st_node = _node_of(g, st)
+                got, why = self._fetch_of(g, st.value, st_node, loop.target.id) if st_node is not None else (None, "the store is unreachable")
+                if got is None:
+                    return False, why, None, []
+                heads = set(g.nodes_for(loop))
+                if not heads or not self._all_parameter_names(g, loop.iter, min(heads), got[0]):
+                    return False, f"the loop runs over `{ast.unparse(loop.iter)[:50]}`, not over every processing parameter name", None, []
+                if g.must_pass([u], [use], lambda n: n.id in heads):
+                    return False, "the filling loop is skipped on some path", None, []
+                xs.add(got[0])
+                ctxs.append((got[1], got[2]))
+                allowed = [st]
+            else:
+                return False, f"it is `{ast.unparse(v)[:60]}`, which does not come from the resolver", None, []
+            extra = [s for s, _r in muts if not any(s is a for a in allowed)]
+            if extra:
+                return False, f"the resolved parameters are modified afterwards (`{norm(stmt_of(extra[0]))[:50]}`)", None, []
+        if len(xs) != 1:
+            return False, f"the parameters are resolved for different nodes {sorted(xs)}", None, []
+        return True, "", next(iter(xs)), ctxs
+
+    def builder_shape(self, G: ast.AST) -> Optional[Tuple[str, str]]:
+        """(node, context) parameters of *G* when every path of G returns {n: fetch(<node>, n, <context>) for every
+        processing parameter name n}; reported once per function."""
+        if id(G) in self.builders:
+            return self.builders[id(G)][1]
+        qn = qualname_of(G)
+        if id(G) in self._busy:
+            return None
+        self._busy.add(id(G))
+        f = _nf(self.repo, NODES, qn)
+        g = CFG(f, may_raise=_no_raise)
+        rets = [n for n in g.nodes if n.kind == "stmt" and isinstance(n.ast, ast.Return)]
+        ok, why = bool(rets) and not g.must_pass([g.entry], [g.ret_exit], lambda n: n.kind == "stmt" and isinstance(n.ast, ast.Return)), "a path returns no mapping"
+        shape: Optional[Tuple[str, str]] = None
+        for rn in rets:
+            if not ok:
+                break
+            ok, why, x, ctxs = self.kwargs(f, g, rn.ast.value, rn.id) if rn.ast.value is not None else (False, "a path returns no mapping", None, [])
+            if ok:
+                cps = {_entry_param(g, c_, u) for c_, u in ctxs}
+                this = (x, next(iter(cps)) if len(cps) == 1 else None)
+                if this[1] is None or this[0] == this[1] or (shape is not None and shape != this):
+                    ok, why = False, "the context the values are resolved against is not the one the function was called with"
+                else:
+                    shape = this  # type: ignore[assignment]
+        self._busy.discard(id(G))
+        if not ok:
+            shape = None
+        self.builders[id(G)] = (G, shape)
+        self.R.check(ok, self.rule, NODES, qn, "parameters[name] = <resolver>(name, context) for every processing parameter", f"some processing parameters bypass (or are skipped by) the resolver: {why}", G.lineno)
+        return shape
+
+    def resolution_context(self, g: CFG, c: ast.Call) -> Optional[ast.AST]:
+        """The context argument of *c* when *c* calls a fetcher / builder found above or the resolver itself."""
+        tg = self.targets(c)
+        if len(tg) == 1 and tg[0][1] is self.rrv:
+            return (_callee_binding(tg[0][0], c, self.rrv) or {}).get("context")
+        for _m, F in tg:
+            for table, idx in ((self.fetchers, 2), (self.builders, 1)):
+                ent = table.get(id(F))
+                if ent is not None and ent[1] is not None:
+                    return (_callee_binding(self.nmod, c, F) or {}).get(ent[1][idx])
+        return None
 
 
 def _target_names(g: CFG, nid: int) -> Set[str]:
     a = g.nodes[nid].ast
     tg = a.targets if isinstance(a, ast.Assign) else [a.target] if isinstance(a, ast.AnnAssign) else []
     return {t.id for t in tg if isinstance(t, ast.Name)}
-
-
-def _resolved_kwargs(fn: ast.AST, g: CFG, e: ast.AST, use: int) -> Tuple[bool, str]:
-    """Is the mapping *e* (as seen at node *use*) exactly
-    {n: self._fetch_parameter_value(n, <ctx>) for every processing parameter name n}?
-    Accepted constructions: the result of self._get_processor_parameters(<ctx>), the dict
-    comprehension, or an empty dict filled by one unconditional loop over the names that every path
-    from the dict's creation to *use* goes through - and nothing else mutates the mapping."""
-    vs = _vals(g, e, use)
-    if not vs:
-        return False, "it is built in a way the analysis cannot follow"
-    holders = {e.id} if isinstance(e, ast.Name) else set()
-    for v, u in vs:
-        holders |= _target_names(g, u)
-    muts = mutation_sites(fn, holders) if holders else []
-    for v, u in vs:
-        if isinstance(v, ast.Call) and dotted_name(v.func) == "self._get_processor_parameters" and _call_args(v, ("context",)) is not None:
-            allowed: List[ast.AST] = []
-        elif isinstance(v, ast.DictComp):
-            gen = v.generators[0]
-            if not (len(v.generators) == 1 and not gen.ifs and not gen.is_async and isinstance(gen.target, ast.Name) and isinstance(v.key, ast.Name) and v.key.id == gen.target.id):
-                return False, "the comprehension filters / re-keys the parameter names"
-            if _fetch_call_context(v.value, gen.target.id) is None:
-                return False, f"the value stored under a parameter name is `{ast.unparse(v.value)[:50]}`, not self._fetch_parameter_value(name, context)"
-            if not _all_parameter_names(g, gen.iter, u):
-                return False, f"it is built from `{ast.unparse(gen.iter)[:50]}`, not from every processing parameter name"
-            allowed = []
-        elif (isinstance(v, ast.Dict) and not v.keys) or (isinstance(v, ast.Call) and dotted_name(v.func) == "dict" and not v.args and not v.keywords):
-            accs = _target_names(g, u)
-            stores = [s for s, r in muts if r in accs]
-            if len(accs) != 1 or len(stores) != 1:
-                return False, "the empty mapping is not filled by exactly one store per parameter name"
-            st = stores[0]
-            loop = parent(st)
-            acc = next(iter(accs))
-            okst = isinstance(st, ast.Assign) and len(st.targets) == 1 and isinstance(st.targets[0], ast.Subscript) and isinstance(st.targets[0].value, ast.Name) and st.targets[0].value.id == acc and isinstance(st.targets[0].slice, ast.Name)
-            if not (okst and isinstance(loop, ast.For) and st in loop.body and not loop.orelse and isinstance(loop.target, ast.Name) and loop.target.id == st.targets[0].slice.id):
-                return False, "the store of a resolved value is not the body of a plain loop over the parameter names"
-            if any(isinstance(x, (ast.Continue, ast.Break, ast.Return, ast.Raise, ast.If, ast.Try)) for x in walk_no_nested(loop)) :
-                return False, "the loop over the parameter names can skip a name (if / continue / break / try inside it)"
-            if _fetch_call_context(st.value, loop.target.id) is None:
-                return False, f"the value stored under a parameter name is `{ast.unparse(st.value)[:50]}`, not self._fetch_parameter_value(name, context)"
-            heads = set(g.nodes_for(loop))
-            if not heads or not _all_parameter_names(g, loop.iter, min(heads)):
-                return False, f"the loop runs over `{ast.unparse(loop.iter)[:50]}`, not over every processing parameter name"
-            if g.must_pass([u], [use], lambda n: n.id in heads):
-                return False, "the filling loop is skipped on some path"
-            allowed = [st]
-        else:
-            return False, f"it is `{ast.unparse(v)[:60]}`, which does not come from the resolver"
-        extra = [s for s, _r in muts if not any(s is a for a in allowed)]
-        if extra:
-            return False, f"the resolved parameters are modified afterwards (`{norm(stmt_of(extra[0]))[:50]}`)"
-    return True, ""
 
 
 def _config_as_given(g: CFG, e: ast.AST, use: int, p: str, depth: int = 0) -> bool:
@@ -380,6 +578,168 @@ def _config_as_given(g: CFG, e: ast.AST, use: int, p: str, depth: int = 0) -> bo
     return False
 
 
+def _same_length_names(repo: Repo, mod, st: ast.AST, seq: str) -> Set[str]:
+    """Locals that statement *st* binds together with *seq* to lists of the same length: `seq, other = f(..)` where every
+    target of the call returns a tuple of lists that are only ever appended to side by side."""
+    if not (isinstance(st, ast.Assign) and len(st.targets) == 1 and isinstance(st.targets[0], (ast.Tuple, ast.List)) and isinstance(st.value, ast.Call)):
+        return set()
+    names = [e.id if isinstance(e, ast.Name) else None for e in st.targets[0].elts]
+    if seq not in names:
+        return set()
+    try:
+        tg = repo.resolve_call(mod, st.value)
+    except Exception:
+        tg = []
+    if not tg:
+        return set()
+    same = set(range(len(names)))
+    i0 = names.index(seq)
+    for _m, F in tg:
+        rets = [n for n in walk_no_nested(F) if isinstance(n, ast.Return)]
+        if len(rets) != 1 or not (isinstance(rets[0].value, ast.Tuple) and len(rets[0].value.elts) == len(names) and all(isinstance(e, ast.Name) for e in rets[0].value.elts)):
+            return set()
+        rn = [e.id for e in rets[0].value.elts]
+        if len(set(rn)) != len(rn):
+            return set()
+        muts = mutation_sites(F, set(rn), include_nested=True)
+        binds = {n_: [x for x in walk_no_nested(F) if isinstance(x, ast.Name) and x.id == n_ and isinstance(x.ctx, (ast.Store, ast.Del))] for n_ in rn}
+        good = set()
+        for j, n_ in enumerate(rn):
+            # created empty once; grown only by `n.append(x)` statements that stand next to one for rn[i0]
+            v = [_assigned_component(parent(b), n_) if isinstance(parent(b), (ast.Assign, ast.AnnAssign)) else None for b in binds[n_]]
+            if len(v) != 1 or not (isinstance(v[0], ast.List) and not v[0].elts) or n_ in _fn_params(F):
+                continue
+            good.add(j)
+        if i0 not in good:
+            return set()
+
+        def appends(n_: str) -> Optional[List[ast.AST]]:
+            out = []
+            for s_, r_ in muts:
+                if r_ != n_:
+                    continue
+                st_ = stmt_of(s_)
+                c_ = st_.value if isinstance(st_, ast.Expr) else None
+                if not (isinstance(c_, ast.Call) and isinstance(c_.func, ast.Attribute) and c_.func.attr == "append" and isinstance(c_.func.value, ast.Name) and c_.func.value.id == n_ and len(c_.args) == 1 and not c_.keywords):
+                    return None
+                out.append(st_)
+            return out
+
+        base = appends(rn[i0])
+        for j in sorted(good):
+            mine = appends(rn[j])
+            okj = base is not None and mine is not None and len(mine) == len(base)
+            for a_, b_ in zip(base or [], mine or []):
+                blk = next((getattr(parent(a_), fld) for fld in ("body", "orelse", "finalbody") if isinstance(getattr(parent(a_), fld, None), list) and a_ in getattr(parent(a_), fld)), None)
+                if not okj or blk is None or b_ not in blk:
+                    okj = False
+                    break
+                lo, hi = sorted((blk.index(a_), blk.index(b_)))
+                if any(isinstance(x, (ast.Continue, ast.Break, ast.Return, ast.Try)) for s_ in blk[lo:hi + 1] for x in ast.walk(s_)):
+                    okj = False
+            if not okj:
+                good.discard(j)
+        same &= good
+    return {names[j] for j in same if names[j] is not None and j != i0}
+
+
+def _traversal(lp: ast.AST, seq: str, same_length: Set[str]):
+    """Predicate `is_element(expr)` when `for <target> in <iter>` (a loop or a comprehension clause) visits every item of the local list *seq* exactly once,
+    in list order (the expression denotes the item of the current iteration); None when it does not (or cannot be told).
+    Understood: `seq`, `iter/list/tuple(seq)`, `enumerate(<t>[, start])`, `zip(<t>, other..)` where every other
+    argument is at least as long (a list built side by side with seq, `range(len(seq))`, `itertools.count(..)`),
+    and the index loop `for i in range(len(seq))` with `seq[i]` (or a local bound to it first thing in the body)."""
+    def plain(e: ast.AST) -> bool:
+        if isinstance(e, ast.Call) and isinstance(e.func, ast.Name) and e.func.id in ("iter", "list", "tuple") and len(e.args) == 1 and not e.keywords:
+            return plain(e.args[0])
+        return isinstance(e, ast.Name) and e.id == seq
+
+    def all_indices(e: ast.AST) -> bool:
+        if not (isinstance(e, ast.Call) and isinstance(e.func, ast.Name) and e.func.id == "range" and not e.keywords and 1 <= len(e.args) <= 2):
+            return False
+        if len(e.args) == 2 and not (isinstance(e.args[0], ast.Constant) and e.args[0].value == 0):
+            return False
+        n = e.args[-1]
+        return isinstance(n, ast.Call) and isinstance(n.func, ast.Name) and n.func.id == "len" and len(n.args) == 1 and not n.keywords and plain(n.args[0])
+
+    def long_enough(e: ast.AST) -> bool:
+        if isinstance(e, ast.Name):
+            return e.id in same_length
+        if all_indices(e):
+            return True
+        return isinstance(e, ast.Call) and (dotted_name(e.func) or "") in ("itertools.count", "count") and not e.keywords and all(isinstance(a, ast.Constant) for a in e.args)
+
+    def elem(it: ast.AST, target: ast.AST) -> Optional[ast.AST]:
+        """the sub-target bound to the items of seq"""
+        if plain(it):
+            return target
+        if isinstance(it, ast.Call) and isinstance(it.func, ast.Name) and not any(isinstance(a, ast.Starred) for a in it.args):
+            if it.func.id == "enumerate" and it.args and len(it.args) + len(it.keywords) <= 2 and all(k.arg == "start" for k in it.keywords) and isinstance(target, (ast.Tuple, ast.List)) and len(target.elts) == 2:
+                return elem(it.args[0], target.elts[1])
+            if it.func.id == "zip" and it.args and all(k.arg == "strict" for k in it.keywords) and isinstance(target, (ast.Tuple, ast.List)) and len(target.elts) == len(it.args) and not any(isinstance(t, ast.Starred) for t in target.elts):
+                hits = [(a, t) for a, t in zip(it.args, target.elts) if elem(a, t) is not None]
+                if len(hits) >= 1 and all(long_enough(a) or any(a is h for h, _t in hits) for a in it.args):
+                    return hits[0][1]
+        return None
+
+    t = elem(lp.iter, lp.target)
+    if isinstance(t, ast.Name):
+        return lambda e, t=t: isinstance(e, ast.Name) and e.id == t.id
+    # index loop
+    idx = lp.target if isinstance(lp.target, ast.Name) else None
+    it = lp.iter
+    if idx is not None and all_indices(it):
+        def item(e: ast.AST) -> bool:
+            return isinstance(e, ast.Subscript) and isinstance(e.value, ast.Name) and e.value.id == seq and isinstance(e.slice, ast.Name) and e.slice.id == idx.id
+        named = set()
+        for st in getattr(lp, "body", []):
+            if isinstance(st, (ast.Assign, ast.AnnAssign)) and st.value is not None and item(st.value):
+                tg = st.targets if isinstance(st, ast.Assign) else [st.target]
+                if len(tg) == 1 and isinstance(tg[0], ast.Name):
+                    named.add(tg[0].id)
+                    continue
+            break
+        stores: Dict[str, int] = {}
+        for st in getattr(lp, "body", []) + getattr(lp, "orelse", []):
+            for x in ast.walk(st):
+                if isinstance(x, ast.Name) and isinstance(x.ctx, (ast.Store, ast.Del)):
+                    stores[x.id] = stores.get(x.id, 0) + 1
+        named = {n for n in named if stores.get(n) == 1}
+        return lambda e: item(e) or (isinstance(e, ast.Name) and e.id in named)
+    return None
+
+
+def _node_bodies(nmod) -> List[Tuple[str, ast.AST]]:
+    """The per-class bodies of the node protocol hook `_PayloadProcessor` drives (overrides of the hook through which
+    `_DataNode._process` / `_ContextProcessorNode._process` run the wrapped processor)."""
+    return [(q, n) for q, n in nmod.defs.items() if isinstance(n, FuncNode) and n.name == "_process_single_item_with_context"]
+
+
+def _is_processor_call(c: ast.Call, fn: ast.AST) -> bool:
+    """`<first parameter>.processor.process(..)` / `.operate_context(..)`"""
+    return bool(fn.args.args) and isinstance(c.func, ast.Attribute) and c.func.attr in ("process", "operate_context") and dotted_name(c.func.value) == f"{fn.args.args[0].arg}.processor"
+
+
+def _unreached_processor_calls(repo: Repo, nmod) -> None:
+    """Every place of nodes.py that runs a wrapped processor is analysed: it is a node body, or a helper that the
+    normal form of a node body absorbed (no call of it is left there)."""
+    bodies = {id(n): q for q, n in _node_bodies(nmod)}
+    runners = {id(f): f for f in ast.walk(nmod.tree) if isinstance(f, FuncNode) and id(f) not in bodies and any(_is_processor_call(c, f) for c in calls_in(f))}
+    if not runners:
+        return
+    called: Set[int] = set()
+    for m, f, _path in repo.call_graph_closure([(nmod, n) for _q, n in _node_bodies(nmod)]).values():
+        called.add(id(f))
+    for q, _n in _node_bodies(nmod):
+        for c in calls_in(_nf(repo, NODES, q)):
+            for _m, t in (repo.resolve_call(nmod, c) if not _is_processor_call(c, _n) else []):
+                if id(t) in runners:
+                    raise AnalysisError(f"{q}: the wrapped processor is run inside {qualname_of(t)}, which the normal form could not absorb")
+    lost = [qualname_of(f) for i, f in runners.items() if i not in called]
+    if lost:
+        raise AnalysisError(f"nodes.py: {lost[0]} runs a wrapped processor but is not reached from any node body")
+
+
 def run(repo: Repo, R: Report) -> None:
     R.assume(
         "processors do what their declared metadata says (the statement's own premise)",
@@ -389,73 +749,67 @@ def run(repo: Repo, R: Report) -> None:
     nmod = repo.module(NODES)
 
     # ------------------------------------------------------------------ D1
-    r_res = R.rule("C01-D1-single-source-of-resolution", "every node resolves run-time parameters through resolve_runtime_value with its own, unmodified node configuration and the run context; the chain there is config, then context, then default, else KeyError", 12)
-    fetchers = [(qn, f) for qn, f in nmod.defs.items() if isinstance(f, FuncNode) and f.name == "_fetch_parameter_value"]
-    if len(fetchers) < 2:
-        raise AnalysisError(f"{len(fetchers)} _fetch_parameter_value definitions found (2 confirmed by reading)")
-    for qn, f0 in fetchers:
+    r_res = R.rule("C01-D1-single-source-of-resolution", "every node resolves run-time parameters through resolve_runtime_value with its own, unmodified node configuration and the run context; the chain there is config, then context, then default, else KeyError", 10)
+    # every invocation of the wrapped processor gets {name: single-source resolution of name} for every processing
+    # parameter name; the functions that do the resolution are found (and reported) by following the calls
+    res = _Resolution(repo, R, r_res)
+    n_proc = 0
+    for qn, f0 in _node_bodies(nmod):
         f = _nf(repo, NODES, qn)
+        if not f.args.args:
+            continue
         g = CFG(f, may_raise=_no_raise)
-        rets = [n for n in g.nodes if n.kind == "stmt" and isinstance(n.ast, ast.Return)]
-        ok = bool(rets) and len(f.args.args) >= 3 and not g.must_pass([g.entry], [g.ret_exit], lambda n: n.kind == "stmt" and isinstance(n.ast, ast.Return))
-        for rn in rets:
-            c, u = _val(g, rn.ast.value, rn.id) if rn.ast.value is not None else (None, rn.id)
-            ok = ok and isinstance(c, ast.Call) and call_attr(c) == "resolve_runtime_value"
-            if ok:
-                a = {k.arg: k.value for k in c.keywords if k.arg is not None} if not c.args and all(k.arg for k in c.keywords) else {}
-                cls_txt = ast.unparse(_val(g, a["processor_cls"], u)[0]) if "processor_cls" in a else ""
-                ok = (_is_param(g, a.get("name"), u, f.args.args[1].arg) and _is_param(g, a.get("context"), u, f.args.args[2].arg)
-                      and "processor_config" in a and dotted_name(_val(g, a["processor_config"], u)[0]) == "self.processor_config"
-                      and cls_txt in ("self.processor.__class__", "type(self.processor)"))
-                tgt = repo.resolve_call(nmod, c)
-                ok = ok and len(tgt) == 1 and tgt[0][0].rel == PARAMRES
-        R.check(ok, r_res, NODES, qn, "return resolve_runtime_value(name, self.processor.__class__, self.processor_config, context)", "a node resolves parameters by something other than the single-source resolver on its own configuration and the run context", f0.lineno)
-    # parameter dict = fetch for every processing parameter name
-    gpp0 = repo.func(NODES, "_DataNode._get_processor_parameters")
-    gpp = _nf(repo, NODES, "_DataNode._get_processor_parameters")
-    g = CFG(gpp, may_raise=_no_raise)
-    rets = [n for n in g.nodes if n.kind == "stmt" and isinstance(n.ast, ast.Return)]
-    ok, why = bool(rets) and not g.must_pass([g.entry], [g.ret_exit], lambda n: n.kind == "stmt" and isinstance(n.ast, ast.Return)), "a path returns no mapping"
-    for rn in rets:
-        if ok:
-            ok, why = _resolved_kwargs(gpp, g, rn.ast.value, rn.id) if rn.ast.value is not None else (False, "a path returns no mapping")
-            if ok and any(isinstance(v, ast.Call) and dotted_name(v.func) == "self._get_processor_parameters" for v, _u in _vals(g, rn.ast.value, rn.id) or []):
-                ok, why = False, "it calls itself"
-    R.check(ok, r_res, NODES, "_DataNode._get_processor_parameters", "parameters[name] = _fetch_parameter_value(name, context) for every processing parameter", f"some processing parameters bypass (or are skipped by) the resolver: {why}", gpp0.lineno)
-    # overrides that run the processor obtain kwargs from the resolver
-    for qn, f0 in [(q, n) for q, n in nmod.defs.items() if isinstance(n, FuncNode) and n.name == "_process_single_item_with_context"]:
-        f = _nf(repo, NODES, qn)
-        g = CFG(f, may_raise=_no_raise)
-        proc_calls = [c for c in calls_in(f) if isinstance(c.func, ast.Attribute) and c.func.attr in ("process", "operate_context") and dotted_name(c.func.value) == "self.processor"]
+        sp = f.args.args[0].arg
+        proc_calls = [c for c in calls_in(f) if isinstance(c.func, ast.Attribute) and c.func.attr in ("process", "operate_context") and dotted_name(c.func.value) == f"{sp}.processor"]
         for c in proc_calls:
+            n_proc += 1
             star = [k.value for k in c.keywords if k.arg is None]
             use = _node_of(g, c)
             ok, why = bool(star) and use is not None, "no resolved parameters are passed"
             for s_ in star:
                 if ok:
-                    ok, why = _resolved_kwargs(f, g, s_, use)
+                    ok, why, x, _ctxs = res.kwargs(f, g, s_, use)
+                    if ok and x != sp:
+                        ok, why = False, f"the parameters are resolved for `{x}`, not for this node"
             explicit = sorted(k.arg for k in c.keywords if k.arg is not None and k.arg not in ("context", "context_observer", "data"))
             if ok and explicit:
                 ok, why = False, f"parameter(s) {explicit} are passed explicitly next to the resolved ones"
             R.check(ok, r_res, NODES, qn, norm(c)[:80], f"the processor is invoked with keyword arguments that do not come from the resolver: {why}", c.lineno)
-    # configuration kept as given
-    for cls_name in ("_DataNode", "_ContextProcessorNode"):
-        init0 = repo.func(NODES, f"{cls_name}.__init__")
-        init = _nf(repo, NODES, f"{cls_name}.__init__")
+    if not n_proc:
+        raise AnalysisError("nodes.py: no node body invokes its processor with resolved parameters (6 confirmed by reading)")
+    _unreached_processor_calls(repo, nmod)
+    # configuration kept as given: every function of nodes.py that stores <node>.processor_config (found by the store,
+    # not by its name) stores the configuration argument it was given
+    n_cfg = 0
+    for qn, f0 in [(q, n) for q, n in nmod.defs.items() if isinstance(n, FuncNode)]:
+        if not any(isinstance(x, ast.Attribute) and x.attr == "processor_config" and isinstance(x.ctx, (ast.Store, ast.Del)) for x in walk_no_nested(f0)):
+            continue
+        init = _nf(repo, NODES, qn)
         g = CFG(init, may_raise=_no_raise)
-        cfg_p = next((a.arg for a in init.args.args[1:] + init.args.kwonlyargs if a.arg == "processor_config"), None) or (init.args.args[2].arg if len(init.args.args) > 2 else "processor_config")
-        stores = [n for n in g.nodes if n.kind == "stmt" and isinstance(n.ast, (ast.Assign, ast.AnnAssign, ast.AugAssign)) and any(dotted_name(t) == "self.processor_config" for t in (n.ast.targets if isinstance(n.ast, ast.Assign) else [n.ast.target]))]
-        ok = bool(stores) and all(isinstance(n.ast, (ast.Assign, ast.AnnAssign)) and n.ast.value is not None and _config_as_given(g, n.ast.value, n.id, cfg_p) for n in stores)
-        later = [n for n in ast.walk(init) if (isinstance(n, ast.Call) and isinstance(n.func, ast.Attribute) and dotted_name(n.func.value) == "self.processor_config" and n.func.attr in ("pop", "update", "clear", "setdefault", "popitem")) or (isinstance(n, (ast.Delete,)) and "self.processor_config" in ast.unparse(n))]
+        pnames = [a.arg for a in init.args.posonlyargs + init.args.args + init.args.kwonlyargs]
+        stores = [n for n in g.nodes if n.kind == "stmt" and isinstance(n.ast, (ast.Assign, ast.AnnAssign, ast.AugAssign)) and any(isinstance(t, ast.Attribute) and t.attr == "processor_config" for t in (n.ast.targets if isinstance(n.ast, ast.Assign) else [n.ast.target]))]
+        owners = {dotted_name(t.value) for n in stores for t in (n.ast.targets if isinstance(n.ast, ast.Assign) else [n.ast.target]) if isinstance(t, ast.Attribute) and t.attr == "processor_config"}
+        # the configuration parameter: the one whose value ends up in the attribute
+        cands = [p_ for p_ in pnames if p_ not in owners and stores and all(isinstance(n.ast, (ast.Assign, ast.AnnAssign)) and n.ast.value is not None and _config_as_given(g, n.ast.value, n.id, p_) for n in stores)]
+        cfg_p = cands[0] if cands else next((p_ for p_ in pnames if p_ == "processor_config"), pnames[-1] if pnames else "processor_config")
+        ok = bool(stores) and bool(cands) and len(owners) == 1 and next(iter(owners)) in pnames
+        own = next(iter(owners)) if len(owners) == 1 else "self"
+        later = [n for n in ast.walk(init) if (isinstance(n, ast.Call) and isinstance(n.func, ast.Attribute) and dotted_name(n.func.value) == f"{own}.processor_config" and n.func.attr in ("pop", "update", "clear", "setdefault", "popitem")) or (isinstance(n, (ast.Delete,)) and f"{own}.processor_config" in ast.unparse(n))]
         later += [s_ for s_, _r in mutation_sites(init, {cfg_p})]
-        R.check(ok and not later, r_res, NODES, f"{cls_name}.__init__", "self.processor_config = processor_config (or {})", "the node configuration is transformed before use (entries dropped / rewritten): a configured value can lose its precedence over the context", init0.lineno)
+        n_cfg += 1
+        R.check(ok and not later, r_res, NODES, qn, "<node>.processor_config = processor_config (or {})", "the node configuration is transformed before use (entries dropped / rewritten): a configured value can lose its precedence over the context", f0.lineno)
+    if not n_cfg:
+        raise AnalysisError("nodes.py: no function stores <node>.processor_config (2 confirmed by reading)")
     rrv = repo.func(PARAMRES, "resolve_runtime_value")
-    chain = extract_chain(rrv)
+    # normal form: `match` lowered to if/elif, a split-off private helper absorbed; `_default_for` stays the call the
+    # chain extraction classifies as the default channel
+    rrv_n = nfunc(repo, PARAMRES, "resolve_runtime_value", keep=("_default_for",))
+    chain = extract_chain(rrv_n)
     want = [("config", "config"), ("context", "context"), ("default", "default"), ("always", "raise:KeyError")]
     R.check(chain == want, r_res, PARAMRES, "resolve_runtime_value", f"first-match chain {chain}", f"run-time precedence is not [config, context, default, KeyError]; got {chain}", rrv.lineno)
     # the values returned are the ones looked up under `name`
     # (role-based: every returned value is classified by the channel it reads, locals substituted)
-    exits = exit_values(rrv)
+    exits = exit_values(rrv_n)
     forms = {
         "config": ("processor_config[name]",),
         "context": ("context.get_value(name)", "context[name]"),
@@ -711,29 +1065,68 @@ def run(repo: Repo, R: Report) -> None:
         bound = bool(binders) and oc_node is not None and not gg.must_pass([gg.entry], [oc_node], lambda n: n.id in binders)
     R.check(bound, r_keys, NODES, "_ContextProcessorNode._process_single_item_with_context", "validating_observer.observer_context = context", "the observer is not bound to the run's context", cpn0.lineno)
     op = repo.func(CPROC, "ContextProcessor.operate_context")
-    trys = [n for n in walk_no_nested(op) if isinstance(n, ast.Try) and n.finalbody]
-    ok = bool(trys) and any(call_attr(c) == "_set_context_observer" and c.args and isinstance(c.args[0], ast.Constant) and c.args[0].value is None for st in trys[0].finalbody for c in calls_in(st)) and any(call_attr(c) == "_process_logic" for st in trys[0].body for c in calls_in(st))
-    R.check(ok, r_keys, CPROC, "ContextProcessor.operate_context", "observer reset in finally around _process_logic", "the observer stays attached after the processor ran (a later write goes through a stale observer)", op.lineno)
-    rets = [n for n in walk_no_nested(op) if isinstance(n, ast.Return)]
-    R.check(len(rets) == 1 and dotted_name(rets[0].value) == "context", r_keys, CPROC, "ContextProcessor.operate_context", "return context", "operate_context does not return the run's context object", op.lineno)
+    opn = nfunc(repo, CPROC, "ContextProcessor.operate_context")
+    gg = CFG(opn)  # with exception edges: the reset has to happen when the processor fails, too
+    op_self = opn.args.args[0].arg if opn.args.args else "self"
+    logic = [n.id for n in gg.nodes if n.ast is not None and n.kind == "stmt" and any(call_attr(c) == "_process_logic" for c in calls_in(n.ast))]
+
+    def is_reset(n) -> bool:
+        """`self._context_observer = None` (the helper that does it is inlined by the normal form)"""
+        if n.kind != "stmt" or not isinstance(n.ast, (ast.Assign, ast.AnnAssign)) or n.ast.value is None:
+            return False
+        tg = n.ast.targets if isinstance(n.ast, ast.Assign) else [n.ast.target]
+        v = _val(gg, n.ast.value, n.id)[0]
+        return any(dotted_name(t) == f"{op_self}._context_observer" for t in tg) and isinstance(v, ast.Constant) and v.value is None
+
+    after = [t for l_ in logic for t, _lab in gg.succ[l_]]
+    after = [t for t in after if not is_reset(gg.nodes[t])]
+    resets = [n.id for n in gg.nodes if is_reset(n)]
+    missed = gg.must_pass(after, [gg.ret_exit, gg.exc_exit], is_reset) if logic else []
+    direct_exit = [t for l_ in logic for t, _lab in gg.succ[l_] if t in (gg.ret_exit, gg.exc_exit)]
+    R.check(bool(logic) and bool(resets) and not missed and not direct_exit, r_keys, CPROC, "ContextProcessor.operate_context", "observer reset on every way out of _process_logic (normal and failing)", "the observer stays attached after the processor ran (a later write goes through a stale observer)", op.lineno, missed[0][1] if missed else None)
+    gq = CFG(opn, may_raise=_no_raise)
+    rets = [n for n in gq.nodes if n.kind == "stmt" and isinstance(n.ast, ast.Return)]
+    ctx_p = next((a_.arg for a_ in opn.args.kwonlyargs + opn.args.args if a_.arg == "context"), "context")
+    ok = bool(rets) and all(n.ast.value is not None and _is_param(gq, n.ast.value, n.id, ctx_p) for n in rets) and not gq.must_pass([gq.entry], [gq.ret_exit], lambda n: n.kind == "stmt" and isinstance(n.ast, ast.Return))
+    R.check(ok, r_keys, CPROC, "ContextProcessor.operate_context", "return context", "operate_context does not return the run's context object", op.lineno)
 
     # ------------------------------------------------------------------ D5
     r_seq = R.rule("C01-D5-sequential-abort", "execute visits the instantiated nodes once each in list order, feeds each node the data/context produced by the previous one, and no handler inside the loop swallows a failure", 5)
     ex = repo.func(ORCH, "SemantivaOrchestrator.execute")
+    omod = repo.module(ORCH)
     loops = [n for n in walk_no_nested(ex) if isinstance(n, ast.For) and any(call_attr(c) == "_submit_and_wait" for c in calls_in(n))]
     if len(loops) != 1:
         raise AnalysisError("execute(): node loop not found")
     lp = loops[0]
-    NODES_VAR = next((dotted_name(n.targets[0].elts[0]) for n in walk_no_nested(ex) if isinstance(n, ast.Assign) and isinstance(n.targets[0], ast.Tuple) and isinstance(n.value, ast.Call) and call_attr(n.value) == "_instantiate_nodes"), "__missing__")
-    ok = isinstance(lp.iter, ast.Call) and call_attr(lp.iter) == "enumerate" and len(lp.iter.args) == 1 and dotted_name(lp.iter.args[0]) == NODES_VAR and not lp.iter.keywords
+    gx = CFG(ex, may_raise=lambda p: set())
+    lp_heads = gx.nodes_for(lp)
+    # the node list S is found by role: the sequence whose elements the loop runs (`<element>.process(..)` in the
+    # submitted callable); the loop has to bind the element to every item of S, in order, once.
+    runs = [c for c in ast.walk(lp) if isinstance(c, ast.Call) and isinstance(c.func, ast.Attribute) and c.func.attr == "process" and (c.args or kwarg(c, "payload") is not None) and any(isinstance(a, FuncNode + (ast.Lambda,)) and any(x is lp for x in ancestors(a)) for a in ancestors(c))]
+    trav = None
+    for seq in sorted({x.id for x in ast.walk(lp.iter) if isinstance(x, ast.Name)}):
+        d = [n for n in reaching_defs(gx, seq, lp_heads[0])] if lp_heads else []
+        d = [n for n in d if not any(a is lp for a in ancestors(n.ast))]
+        lens = _same_length_names(repo, omod, d[0].ast, seq) if len(d) == 1 and d[0].kind == "stmt" else set()
+        t = _traversal(lp, seq, lens)
+        if t is not None and runs and all(t(c.func.value) for c in runs):
+            trav = (seq, t, d[0].ast if len(d) == 1 else None)
+    ok = trav is not None and len(runs) >= 1
+    if ok:
+        NODES_VAR, is_elem, nodes_def = trav
+        idx_names = {x.id for x in ast.walk(lp.target) if isinstance(x, ast.Name)} | {NODES_VAR}
+        ok = not any(isinstance(x, ast.Name) and x.id in idx_names and isinstance(x.ctx, (ast.Store, ast.Del)) for st in lp.body + lp.orelse for x in walk_no_nested(st)) and not any(any(a is lp for a in ancestors(s_)) for s_, _r in mutation_sites(ex, {NODES_VAR}, include_nested=True))
+    else:
+        NODES_VAR, is_elem, nodes_def = "__missing__", (lambda e: False), None
     R.check(ok, r_seq, ORCH, "SemantivaOrchestrator.execute", norm(lp), "nodes are not visited in list order exactly once", lp.lineno)
-    nd = assigned_value(ex, "nodes")
-    ok = True
-    for n in walk_no_nested(ex):
-        if isinstance(n, ast.Assign) and isinstance(n.targets[0], ast.Tuple) and any(dotted_name(e) == NODES_VAR for e in n.targets[0].elts):
-            ok = isinstance(n.value, ast.Call) and call_attr(n.value) == "_instantiate_nodes"
+    # S is what the node factory produced for the resolved spec: bound once, by a call that reaches the node factory
+    ok = False
+    if nodes_def is not None and isinstance(nodes_def, (ast.Assign, ast.AnnAssign)) and isinstance(nodes_def.value, ast.Call):
+        tg = repo.resolve_call(omod, nodes_def.value)
+        ok = bool(tg) and all(any(m.rel == NODEFACT for m, _f, _p in repo.call_graph_closure([t_]).values()) for t_ in tg)
+        ok = ok and not any(not any(a is lp for a in ancestors(s_)) and (getattr(s_, "lineno", 0) > nodes_def.lineno) for s_, _r in mutation_sites(ex, {NODES_VAR}))
     R.check(ok, r_seq, ORCH, "SemantivaOrchestrator.execute", "nodes, node_defs = self._instantiate_nodes(resolved_spec, logger)", "the node list is not the instantiated spec in order", ex.lineno)
-    nc = next((n for n in ast.walk(lp) if isinstance(n, FuncNode) and any(call_attr(c) == "process" for c in calls_in(n))), None)
+    nc = next((n for n in ast.walk(lp) if isinstance(n, FuncNode + (ast.Lambda,)) and any(call_attr(c) == "process" for c in ast.walk(n) if isinstance(c, ast.Call))), None)
     payload_p = next((a.arg for a in ex.args.args if a.arg == "payload"), "payload")
     def run_var(attr: str) -> str:
         """the local that carries the run's data / context: bound to <payload>.<attr> before the loop (single or tuple assignment)"""
@@ -750,7 +1143,7 @@ def run(repo: Repo, R: Report) -> None:
     ok = False
     if nc is not None:
         for c in ast.walk(nc):
-            if isinstance(c, ast.Call) and call_attr(c) == "process" and isinstance(c.func, ast.Attribute) and dotted_name(c.func.value) == lp.target.elts[1].id and (c.args or kwarg(c, "payload") is not None):
+            if isinstance(c, ast.Call) and call_attr(c) == "process" and isinstance(c.func, ast.Attribute) and is_elem(c.func.value) and (c.args or kwarg(c, "payload") is not None):
                 a0 = c.args[0] if c.args else kwarg(c, "payload")
                 if isinstance(a0, ast.Name):
                     one = assigned_value(nc, a0.id)
@@ -799,9 +1192,9 @@ def run(repo: Repo, R: Report) -> None:
         rebound = any(isinstance(x, ast.Name) and x.id == data_p and isinstance(x.ctx, (ast.Store, ast.Del)) for x in walk_no_nested(p))
         ok = len(loops) + len(comps) == 1 and not rebound
 
-        def mapped_call(scope: ast.AST, item: Optional[str]) -> Optional[ast.Call]:
+        def mapped_call(scope: ast.AST, is_item) -> Optional[ast.Call]:
             sc = [c for c in calls_in(scope) if isinstance(c.func, ast.Attribute) and c.func.attr == "process" and isinstance(c.func.value, ast.Call) and call_attr(c.func.value) == "super"]
-            if len(sc) != 1 or item is None or not sc[0].args or dotted_name(sc[0].args[0]) != item:
+            if len(sc) != 1 or is_item is None or not sc[0].args or not is_item(sc[0].args[0]):
                 return None
             stars = [dotted_name(a.value) for a in sc[0].args[1:] if isinstance(a, ast.Starred)]
             dstars = [dotted_name(k.value) for k in sc[0].keywords if k.arg is None]
@@ -809,16 +1202,12 @@ def run(repo: Repo, R: Report) -> None:
                 return None
             return sc[0]
 
-        def over_input(it: ast.AST, target: ast.AST) -> Optional[str]:
-            """loop variable bound to the elements when the iteration is over the input itself, in order"""
-            if isinstance(it, ast.Call) and call_attr(it) == "enumerate" and len(it.args) == 1 and not it.keywords:
-                return target.elts[1].id if isinstance(it.args[0], ast.Name) and it.args[0].id == data_p and isinstance(target, ast.Tuple) and len(target.elts) == 2 and isinstance(target.elts[1], ast.Name) else None
-            return target.id if isinstance(it, ast.Name) and it.id == data_p and isinstance(target, ast.Name) else None
-
         if ok and loops:
             lp_ = loops[0]
-            sc0 = mapped_call(lp_, over_input(lp_.iter, lp_.target))
-            ok = sc0 is not None and not lp_.orelse and not any(isinstance(x, (ast.If, ast.IfExp, ast.Continue, ast.Break, ast.Return, ast.Try, ast.While)) for x in ast.walk(lp_))
+            is_item = _traversal(lp_, data_p, set())
+            sc0 = mapped_call(lp_, is_item)
+            bound = {x.id for x in ast.walk(lp_.target) if isinstance(x, ast.Name)}
+            ok = sc0 is not None and not lp_.orelse and not any(isinstance(x, (ast.If, ast.IfExp, ast.Continue, ast.Break, ast.Return, ast.Try, ast.While)) for x in ast.walk(lp_)) and not any(isinstance(x, ast.Name) and x.id in bound and isinstance(x.ctx, (ast.Store, ast.Del)) for st in lp_.body for x in ast.walk(st))
             if ok:
                 # the element result is what gets appended (directly or through one local)
                 holder = {t.id for st in lp_.body if isinstance(st, ast.Assign) and st.value is sc0 for t in st.targets if isinstance(t, ast.Name)}
@@ -827,7 +1216,7 @@ def run(repo: Repo, R: Report) -> None:
         elif ok:
             cp = comps[0]
             gen = cp.generators[0]
-            sc0 = mapped_call(cp, over_input(gen.iter, gen.target)) if len(cp.generators) == 1 and not gen.ifs and not gen.is_async else None
+            sc0 = mapped_call(cp, _traversal(gen, data_p, set())) if len(cp.generators) == 1 and not gen.ifs and not gen.is_async else None
             ok = sc0 is not None and isinstance(cp, (ast.ListComp, ast.GeneratorExp)) and cp.elt is sc0
         R.check(ok, r_sl, SLICE, qualname_of(p), "for item in data: out.append(super().process(item, *args, **kwargs))", "a slicer does not map the wrapped processor over the elements in order with the resolved parameters", p.lineno)
 
@@ -911,7 +1300,7 @@ def run(repo: Repo, R: Report) -> None:
     if n_seen < 4:
         raise AnalysisError(f"IO adapter templates: {n_seen} _process_logic bodies recognised (4 confirmed by reading)")
 
-    _rule_run_inputs(repo, R, nmod)
+    _rule_run_inputs(repo, R, nmod, res)
     _rule_forwarding(repo, R)
     _rule_shorthand_processors(repo, R)
     _rule_no_process_state(repo, R)
@@ -965,33 +1354,28 @@ def _is_run_input(g: CFG, e: ast.AST, use: int, payload_p: str, attr: str, depth
     return False
 
 
-def _rule_run_inputs(repo: Repo, R: Report, nmod) -> None:
+def _rule_run_inputs(repo: Repo, R: Report, nmod, res: "_Resolution") -> None:
     r = R.rule("C01-D9-run-inputs-reach-the-processor", "in every node body the context handed to parameter resolution (and to operate_context) is the context of the payload the node was given, and the data handed to the processor is that payload's data", 10)
-    for qn, f in [(q, n) for q, n in nmod.defs.items() if isinstance(n, FuncNode) and n.name == "_process_single_item_with_context"]:
-        if len(f.args.args) < 2:
+    for qn, f0 in _node_bodies(nmod):
+        if len(f0.args.args) < 2:
             continue
-        payload_p = f.args.args[1].arg
+        f = _nf(repo, NODES, qn)
+        sp, payload_p = f.args.args[0].arg, f.args.args[1].arg
         g = CFG(f, may_raise=_no_raise)
-
-        def use_of(c: ast.Call) -> Optional[int]:
-            ids = g.nodes_for(stmt_of(c))
-            return ids[0] if ids else None
-
         for c in calls_in(f):
-            if not isinstance(c.func, ast.Attribute):
-                continue
-            recv, meth = dotted_name(c.func.value), c.func.attr
             wanted: List[Tuple[Optional[ast.AST], str, str]] = []
-            if recv == "self" and meth == "_get_processor_parameters":
-                wanted.append((c.args[0] if c.args else kwarg(c, "context"), "context", "parameters are resolved against"))
-            elif recv == "self" and meth == "_fetch_parameter_value":
-                wanted.append((c.args[1] if len(c.args) > 1 else kwarg(c, "context"), "context", "parameters are resolved against"))
-            elif recv == "self.processor" and meth == "process":
+            recv, meth = (dotted_name(c.func.value), c.func.attr) if isinstance(c.func, ast.Attribute) else (None, None)
+            if recv == f"{sp}.processor" and meth == "process":
                 wanted.append((c.args[0] if c.args else kwarg(c, "data"), "data", "the processor is run on"))
-            elif recv == "self.processor" and meth == "operate_context":
+            elif recv == f"{sp}.processor" and meth == "operate_context":
                 wanted.append((kwarg(c, "context") or (c.args[0] if c.args else None), "context", "the context processor operates on"))
+            else:
+                # a call that resolves parameters (builder / fetcher found by D1, or the resolver itself)
+                e = res.resolution_context(g, c)
+                if e is not None:
+                    wanted.append((e, "context", "parameters are resolved against"))
             for e, attr, what in wanted:
-                use = use_of(c)
+                use = _node_of(g, c)
                 ok = e is not None and use is not None and _is_run_input(g, e, use, payload_p, attr)
                 R.check(ok, r, NODES, qn, norm(c)[:90], f"{what} `{ast.unparse(e) if e is not None else '?'}`, which is not (provably) `{payload_p}.{attr}` of the payload this node received: values placed in the pipeline context (initial context, keys written by earlier nodes) are invisible to this node / it works on other data", c.lineno)
 
